@@ -515,8 +515,11 @@ class YAMLSpecification(Specification):
             elif error.validator == "anyOf":
                 path = ".".join(str(key) for key in error.path)
                 context_message = error.context[0].message
+                # The field path is data (an env variable may be called
+                # 'a\\d'): substituted through a function it is never
+                # read as a regular-expression template.
                 context_message = re.sub(
-                    r"'.+' ", "'{0}' ".format(path), context_message
+                    r"'.+' ", lambda _: "'{0}' ".format(path), context_message
                 )
                 raise jsonschema.ValidationError(
                     (
